@@ -272,6 +272,7 @@ def check_tts(case, ctx):
     lay_ = build.Lay(case.get("orders"))
     e = lay_([p[0] for p in xy], shape)
     nn = lay_([p[1] for p in xy], shape)
+    e, nn = blocks.pixel_array(lay, e), blocks.pixel_array(lay, nn)
     rows = np.arange(n, dtype="float64")
     coords = (e, nn) + ((lay_(rows + 0.5, shape),) if case["extra"] else ())
     data = tuple(lay_(1000.0 * (c + 1) + rows, shape) for c in range(case["ncomp"]))
